@@ -24,9 +24,10 @@ INVARIANTS = ['C19_Jail', 'C19_StillServes', 'StaticConforms', 'RefJail', 'C19_N
 CHUNK = 400
 
 
-def consts(maxsegs, pinned=False):
+def consts(maxsegs, fulllead=None, pinned=False):
     return {
         'MaxSegs': str(maxsegs),
+        'FullLeadSegs': str(maxsegs if fulllead is None else fulllead),
         'Pinned': 'TRUE' if pinned else 'FALSE',
         'Endpoints': '<- RtEndpoints',
         'EpGET': '<- RtGET',
@@ -50,12 +51,12 @@ def read_routes(chk):
     return routes
 
 
-def generate(chk, name, maxsegs):
+def generate(chk, name, maxsegs, fulllead):
     '''exhaustive run of the model (invariants) that also prints every case'''
     res = chk.mc(
         name,
         'FrontEnd_Gen.tla',
-        dict(spec='GenSpec', constants=consts(maxsegs), invariants=INVARIANTS),
+        dict(spec='GenSpec', constants=consts(maxsegs, fulllead), invariants=INVARIANTS),
         workers=4,
         out_file=os.path.join(chk.work, f'{name}.out'),
     )
@@ -155,7 +156,8 @@ def run(pid, tier, seed, replay=None):
         return chk.finish('replay of one recorded case')
     thorough = tier == 'thorough'
     # 1. MC + GEN in one exhaustive run
-    tree, cases = generate(chk, 'gen', 5 if thorough else 4)
+    # quick: <= 3 segments with 0-2 leading slashes, 4 segments with one; thorough: <= 5 segments, all of them with 0-2
+    tree, cases = generate(chk, 'gen', 5 if thorough else 4, 5 if thorough else 3)
     if thorough:
         # the design-level defect of the pinned _static shows in the model without running any code
         res = chk.mc('mc_pinned', 'FrontEnd_MC.tla', dict(spec='Spec', constants=consts(2, pinned=True), invariants=['C19_Jail']), workers=4, expect_ok=False)
